@@ -1,4 +1,53 @@
 import TransportVerif.Model.BufferSync
+import TransportVerif.Proofs.BufferSync
+/-
+C08 — packet buffer reads block only while empty and are always woken.
+The statements below are FIXED; only the proofs may change.
+-/
 namespace TV.Props.C08
-theorem placeholder : True := trivial
+open TV TV.BufferSync
+
+/-- states reachable from a buffer holding `pre` packets with any numbers of reader, writer and
+    closer threads, under ANY schedule (any interleaving at the granularity of the lock and the wait) -/
+def Reach (s : Sys) : Prop := ∃ pre r w c sched, s = run (Sys.init pre r w c) sched
+
+/-- Main theorem: in every reachable state in which no thread can take a step any more (every
+    thread has finished or is blocked in the wait), no reader is blocked while a packet is
+    buffered, and none is blocked after Close. -/
+theorem no_stranded_reader (s : Sys) (h : Reach s) (hq : s.quiescent = true) : s.stranded = false := by
+  obtain ⟨pre, r, w, c, sched, rfl⟩ := h
+  exact (Proofs.BufferSync.Inv_run (Proofs.BufferSync.Inv_init pre r w c) sched).not_stranded hq
+
+/-- Close wakes all waiting readers, and no reader parks afterwards: in every reachable state with
+    the buffer closed nobody is blocked in the wait. -/
+theorem close_wakes_all (s : Sys) (h : Reach s) (hc : s.closed = true) : s.parked = [] := by
+  obtain ⟨pre, r, w, c, sched, rfl⟩ := h
+  exact (Proofs.BufferSync.Inv_run (Proofs.BufferSync.Inv_init pre r w c) sched).C hc
+
+/-- a pending token means nobody is waiting for one (a send goes to a waiting receiver first) -/
+theorem token_implies_nobody_parked (s : Sys) (h : Reach s) (ht : s.token = true) : s.parked = [] := by
+  obtain ⟨pre, r, w, c, sched, rfl⟩ := h
+  exact (Proofs.BufferSync.Inv_run (Proofs.BufferSync.Inv_init pre r w c) sched).K ht
+
+/-- a Read that finds a packet returns it without waiting; after Close the remaining packets can
+    still be read and then every Read reports end-of-file — for a reader at the lock in ANY state -/
+theorem read_at_lock (s : Sys) (t : Nat) (h : s.ths[t]? = some { role := .reader, pc := .atLock }) :
+    (s.count > 0 → (step s t).ths[t]? = some { role := .reader, pc := .done .got } ∧ (step s t).count = s.count - 1) ∧
+    (s.count = 0 → s.closed = true → (step s t).ths[t]? = some { role := .reader, pc := .done .eof }) ∧
+    (s.count = 0 → s.closed = false → (step s t).ths[t]? = some { role := .reader, pc := .atSelect }) := by
+  exact Proofs.BufferSync.reader_at_lock s t h
+
+/-- packets are conserved: buffered = initially there + written − read, in every reachable state -/
+theorem count_conserved (pre r w c : Nat) (sched : List Nat) :
+    (run (Sys.init pre r w c) sched).count +
+      ((run (Sys.init pre r w c) sched).ths.filter (fun th => th.pc == .done .got)).length =
+    pre + ((run (Sys.init pre r w c) sched).ths.filter (fun th => th.pc == .done .wrote)).length := by
+  rw [← Proofs.BufferSync.got_eq, ← Proofs.BufferSync.wrote_eq]
+  exact Proofs.BufferSync.conserved pre r w c sched
+
+-- the pinned tree's lost wake-up (two readers in the window, two writes, one token) on the model
+-- of the repaired code: the second reader finds the token passed on by the first
+example : (run (Sys.init 0 2 2 0) [0, 1, 2, 3, 0, 1, 2, 3, 0, 0, 1, 1]).ths.map (·.pc)
+    = [.done .got, .done .got, .done .wrote, .done .wrote] := by decide
+
 end TV.Props.C08
